@@ -335,15 +335,24 @@ Section Sig.
   Definition sdid_tok (s : sdid) : tok :=
     match s with SInt z => KInt z | SStr s => KStr s | STup l => KTup (map KInt l) end.
 
-  Record integral := { integrand : tree; dom : N; itype : string; sid : sdid; md : mval }.
+  (** [xdoms]: the extra_domain_integral_type_map of a multi-mesh integral (Measure(..., intersect_measures=...)):
+      the other meshes the integral intersects, each with the integral type used on it, in the order of
+      the domain sort (the order the Integral constructor stores them in) *)
+  Record integral := { integrand : tree; dom : N; itype : string; xdoms : list (N * string); sid : sdid; md : mval }.
+
+  Definition xdom_tok (p : N * string) : tok := KTup [KNat (fst p); KStr (snd p)].
 
   Definition integral_tok (i : integral) : tok :=
-    KTup [KDig (ehash (integrand i)); KNat (dom i); KStr (itype i); sdid_tok (sid i); canon_md (md i)].
+    KTup [KDig (ehash (integrand i)); KNat (dom i); KStr (itype i); KTup (map xdom_tok (xdoms i));
+          sdid_tok (sid i); canon_md (md i)].
   Definition signature (F : list integral) : D := H (KTup (map integral_tok F)).
 
   (** the compiled meaning of an integral, as far as the signature can and must see it *)
-  Definition meaning (i : integral) : tree * N * string * sdid * tok :=
-    (strip (integrand i), dom i, itype i, sid i, canon_md (md i)).
+  Definition meaning (i : integral) : tree * N * string * list (N * string) * sdid * tok :=
+    (strip (integrand i), dom i, itype i, xdoms i, sid i, canon_md (md i)).
+
+  Lemma xdom_tok_inj p q : xdom_tok p = xdom_tok q -> p = q.
+  Proof. destruct p, q; unfold xdom_tok; simpl; intro E; injection E as E1 E2; congruence. Qed.
 
   Lemma sdid_tok_inj a b : sdid_tok a = sdid_tok b -> a = b.
   Proof.
@@ -355,17 +364,28 @@ Section Sig.
   Proof.
     intros F G E. unfold signature. f_equal. f_equal. revert G E.
     induction F as [|i F IH]; destruct G as [|j G]; cbn [map]; intro E; try reflexivity; try discriminate.
-    injection E as Ea Eb Ec Ed Ee E2. rewrite (IH G E2). f_equal. unfold integral_tok.
-    rewrite (C11_complete_expr _ _ Ea), Eb, Ec, Ed, Ee. reflexivity.
+    injection E as Ea Eb Ec Ex Ed Ee E2. rewrite (IH G E2). f_equal. unfold integral_tok.
+    rewrite (C11_complete_expr _ _ Ea), Eb, Ec, Ex, Ed, Ee. reflexivity.
   Qed.
 
   Theorem C11_sound : forall F G, signature F = signature G -> map meaning F = map meaning G.
   Proof.
     intros F G E. unfold signature in E. apply H_inj in E. injection E as E. revert G E.
     induction F as [|i F IH]; destruct G as [|j G]; cbn [map]; intro E; try reflexivity; try discriminate.
-    injection E as Ea Eb Ec Ed Ee E2. rewrite (IH G E2). f_equal. unfold meaning.
-    apply C11_ehash_inj in Ea. apply sdid_tok_inj in Ed.
-    rewrite Ea, Eb, Ec, Ed, Ee. reflexivity.
+    injection E as Ea Eb Ec Ex Ed Ee E2. rewrite (IH G E2). f_equal. unfold meaning.
+    apply C11_ehash_inj in Ea. apply sdid_tok_inj in Ed. apply (map_inj xdom_tok xdom_tok_inj) in Ex.
+    rewrite Ea, Eb, Ec, Ex, Ed, Ee. reflexivity.
+  Qed.
+
+  (** in particular: two integrals that differ only in the integral type used on an intersected mesh
+      (ds vs dS on the extra domain) have different signatures *)
+  Corollary C11_sound_extra_domain_type : forall e dm it sd m d t t' pre post,
+    t <> t' ->
+    signature [{| integrand := e; dom := dm; itype := it; xdoms := pre ++ (d, t) :: post; sid := sd; md := m |}] <>
+    signature [{| integrand := e; dom := dm; itype := it; xdoms := pre ++ (d, t') :: post; sid := sd; md := m |}].
+  Proof.
+    intros e dm it sd m d t t' pre post Hne E. apply C11_sound in E. cbn [map meaning xdoms] in E.
+    injection E as E. apply app_inv_head in E. injection E as E. exact (Hne E).
   Qed.
 
   (** metadata VALUES are determined only for equal type skeletons ... *)
@@ -373,15 +393,15 @@ Section Sig.
     forall i j, signature [i] = signature [j] -> same_type (md i) (md j) = true -> md i = md j.
   Proof.
     intros Ha i j E Ht. apply C11_sound in E. cbn [map] in E.
-    injection E as _ _ _ _ E. apply (C11_canon_md_inj_typed Ha); assumption.
+    injection E as _ _ _ _ _ E. apply (C11_canon_md_inj_typed Ha); assumption.
   Qed.
 
   (** ... and every collision of str(ndarray) is a collision of signatures of forms whose metadata differ
       (the harness exhibits x <> y with str_arr x = str_arr y on the real numpy) *)
   Theorem C11_signature_collision_from_array_str : forall x y e dm it sd,
     x <> y -> str_arr x = str_arr y ->
-    let F := [{| integrand := e; dom := dm; itype := it; sid := sd; md := MDict [("weights"%string, MArr x)] |}] in
-    let G := [{| integrand := e; dom := dm; itype := it; sid := sd; md := MDict [("weights"%string, MArr y)] |}] in
+    let F := [{| integrand := e; dom := dm; itype := it; xdoms := []; sid := sd; md := MDict [("weights"%string, MArr x)] |}] in
+    let G := [{| integrand := e; dom := dm; itype := it; xdoms := []; sid := sd; md := MDict [("weights"%string, MArr y)] |}] in
     F <> G /\ signature F = signature G.
   Proof.
     intros x y e dm it sd Hne Hs F G. split.
@@ -390,8 +410,8 @@ Section Sig.
   Qed.
 
   Theorem C11_signature_collision_untyped : forall e dm it sd,
-    let F := [{| integrand := e; dom := dm; itype := it; sid := sd; md := MDict [("degree"%string, MInt 3)] |}] in
-    let G := [{| integrand := e; dom := dm; itype := it; sid := sd; md := MDict [("degree"%string, MStr (str_int 3))] |}] in
+    let F := [{| integrand := e; dom := dm; itype := it; xdoms := []; sid := sd; md := MDict [("degree"%string, MInt 3)] |}] in
+    let G := [{| integrand := e; dom := dm; itype := it; xdoms := []; sid := sd; md := MDict [("degree"%string, MStr (str_int 3))] |}] in
     F <> G /\ signature F = signature G.
   Proof.
     intros e dm it sd F G. split.
@@ -407,6 +427,7 @@ Print Assumptions C11_canon_md_inj_typed.
 Print Assumptions C11_metadata_untyped_refuted.
 Print Assumptions C11_complete.
 Print Assumptions C11_sound.
+Print Assumptions C11_sound_extra_domain_type.
 Print Assumptions C11_sound_metadata_typed.
 Print Assumptions C11_signature_collision_from_array_str.
 Print Assumptions C11_signature_collision_untyped.
